@@ -351,18 +351,27 @@ class IOOpsMixin:
         path = os.path.join(self._home_of(client), op["path"])
         relp = os.path.relpath(path, self.root)
         prev = self.disk.get(relp)
+        self._size_before = None
         if prev is not None and prev.get("kind") == "energy" and prev.get("data") is not None:
             self.probe("energy_file_overwritten")
             if prev["data"]["nv"] > d["nv"]:
                 self.probe("energy_file_overwritten_by_smaller")
             if (prev["data"]["nv"], prev["data"]["nq"], prev["data"]["np"]) == (d["nv"], d["nq"], d["np"]):
-                self.probe("energy_file_overwritten_same_size")
+                self.probe("energy_file_overwritten_same_shape")
+                try:
+                    self._size_before = os.path.getsize(path)
+                except OSError:
+                    self._size_before = None
+            else:
+                self._size_before = None
         self.disk[relp] = {"state": "indeterminate", "writer": client, "kind": "energy"}
         kw = {}
         if op.get("comment") is not None:
             kw["comment"] = op["comment"]
         write_energy(path if op.get("abs", True) else os.path.relpath(path, self._cwd_of(client)), self._make_qha_input(d), **kw)
         self.disk[relp] = {"state": "ok", "writer": client, "kind": "energy", "data": d}
+        if getattr(self, "_size_before", None) is not None and prev is not None and prev.get("data") is not None and os.path.getsize(path) == self._size_before and prev["data"] != d:
+            self.probe("energy_file_overwritten_same_size")       # other content, same byte size (and, without a tick in between, same timestamp)
         return {}
 
     def op_io_read_energy(self, client, i, op):
